@@ -1,5 +1,6 @@
 import Driver.Sexp
 import Pcore.Model.Files
+import Pcore.Model.FilesFuel
 /-!
 Driver ops for C15 (syntax in harness/c15/c15.go):
 
@@ -12,7 +13,9 @@ The file list is sorted into `filepath.Walk` order (segment-wise, bytewise) befo
 namespace C15
 open Sx Pcore.Files
 
-def fuel : Nat := 5000
+/-- the least fuel a lookup sequence is run with; the driver takes `max minFuel (seqBound cfg {} names)`, and
+    `C15_terminates_seq` (Props/C15.lean) shows that `seqBound` suffices: `diverges` is never printed for want of fuel -/
+def minFuel : Nat := 5000
 
 def strs? (e : Sexp) : Option (List String) :=
   match e with
@@ -134,7 +137,7 @@ def outcomeStr (o : Outcome) (newReads : List Path) : String :=
     | .failed e => errStr e
   base ++ String.join ((sortStrs (newReads.map joinPath)).map fun r => " +" ++ r)
 
-def runLookups (cfg : Cfg) : St → List Lookup → Option (List String × St)
+def runLookups (fuel : Nat) (cfg : Cfg) : St → List Lookup → Option (List String × St)
   | s, [] => some ([], s)
   | s, l :: ls => do
     let (item, s') ← (match l with
@@ -144,7 +147,7 @@ def runLookups (cfg : Cfg) : St → List Lookup → Option (List String × St)
       | .has (some n) => some ("has " ++ boolStr (hasEntry cfg s cfg.via (keyOf n)), s)
       | .discover => some ("names " ++ ",".intercalate ((discover cfg s cfg.via).map joinName), s)
       | _ => none)
-    let (items, s'') ← runLookups cfg s' ls
+    let (items, s'') ← runLookups fuel cfg s' ls
     pure (item :: items, s'')
 
 def readsStr (s : St) : String :=
@@ -167,7 +170,10 @@ def execTree (modsE filesE viaE lookupsE : Sexp) : String :=
         else
           let tree := files.mergeSort (fun a b => !(segLt b.1 a.1))
           let cfg : Cfg := { mods := mods, tree := tree, via := via, flat := flat }
-          match runLookups cfg {} lookups with
+          let names := lookups.filterMap fun l => match l with
+            | .load (some n) => some n
+            | _ => none
+          match runLookups (max minFuel (seqBound cfg {} names)) cfg {} lookups with
           | none => "bad-tree"
           | some (items, s) => " ; ".intercalate items ++ " | reads" ++ readsStr s
     | _, _ => "bad-op"
